@@ -120,7 +120,7 @@ typedef struct world {
 } world_t;
 
 extern const world_t world_lists, world_trees, world_heap, world_map,
-       world_hash, world_vector, world_string, world_sort, world_array,
+       world_hash, world_vector, world_string, world_sort, world_array, world_par,
        world_mem, world_memc;
 
 /* ------------------------------------------------------ run-global state */
